@@ -67,6 +67,7 @@ type concRun struct {
 	inflight int
 	closing  bool
 	done     []bool
+	shared   map[int]*sharedSess
 }
 
 func (c *concRun) stamp() int64 { c.seq++; return c.seq }
@@ -457,6 +458,73 @@ func (c *concRun) cCancelled(client int, repo string, op Op) {
 	_ = start
 }
 
+// cSharedSession: several clients work on ONE upload session (a client that retries a chunk on a second connection, a
+// proxy that duplicates a request). Nothing is claimed about which request wins; whatever becomes retrievable must hash
+// to the digest it is served under (the generic oracle of every 2xx GET), which "getall" reads back.
+func (c *concRun) cSharedSession(ci int, repo string, op Op) {
+	w := c.w
+	if c.shared == nil {
+		c.shared = map[int]*sharedSess{}
+	}
+	ss := c.shared[op.Sess]
+	switch op.Act {
+	case "post":
+		q := url.Values{}
+		if op.Algo != "" {
+			q.Set("digest-algorithm", op.Algo)
+		}
+		r := w.do(reqSpec{method: "POST", path: "/v2/" + repo + "/blobs/uploads/", query: q.Encode(), repos: []string{repo}})
+		if r.Code == 202 {
+			c.shared[op.Sess] = &sharedSess{loc: r.H.Get("Location")}
+		}
+	case "wait":
+		// until the session has seen op.A successful chunks (bounded: the other client may have failed)
+		for i := 0; i < 200 && (ss == nil || ss.chunks < op.A); i++ {
+			simrt.Sleep(50 * time.Microsecond)
+			ss = c.shared[op.Sess]
+		}
+	case "patch", "put":
+		if ss == nil {
+			return
+		}
+		u, err := url.Parse(ss.loc)
+		if err != nil {
+			return
+		}
+		if op.Act == "patch" {
+			r := w.do(reqSpec{method: "PATCH", path: u.EscapedPath(), query: u.RawQuery, body: w.obj(op.Obj).data, repos: []string{repo}})
+			if r.Code == 202 {
+				ss.loc = r.H.Get("Location")
+				ss.chunks++
+			}
+			return
+		}
+		// the declared digest: of the first object, or of both in order
+		data := append([]byte{}, w.obj(op.Obj).data...)
+		if op.S == "both" {
+			data = append(data, w.obj(op.From).data...)
+		}
+		q := u.Query()
+		q.Set("digest", digestOf(algoOrDefault(op.Algo2), data))
+		r := w.do(reqSpec{method: "PUT", path: u.EscapedPath(), query: q.Encode(), repos: []string{repo}})
+		if r.Code == 201 {
+			w.x.out.probe("shared-session-completed")
+		}
+	case "getall":
+		a, b := w.obj(op.Obj).data, w.obj(op.From).data
+		for _, data := range [][]byte{a, b, append(append([]byte{}, a...), b...), append(append([]byte{}, b...), a...)} {
+			for _, algo := range []string{"sha256", "sha512", "sha384"} {
+				w.do(reqSpec{method: "GET", path: "/v2/" + repo + "/blobs/" + digestOf(algo, data), repos: []string{repo}})
+			}
+		}
+	}
+}
+
+type sharedSess struct {
+	loc    string
+	chunks int
+}
+
 func (c *concRun) runClient(ci int, ops []Op) {
 	w := c.w
 	for _, op := range ops {
@@ -505,6 +573,8 @@ func (c *concRun) runClient(ci int, ops []Op) {
 				}
 			}
 			w.x.out.probe("conc-mount")
+		case "sx":
+			c.cSharedSession(ci, repo, op)
 		case "sleep":
 			simrt.Sleep(time.Duration(op.Ms) * time.Millisecond)
 		case "aligntick":
@@ -1044,6 +1114,39 @@ func coldStart(p *Plan, seed uint64) *Plan {
 		p.Extra["cold"] = true
 	}
 	return p
+}
+
+// planSharedSession (C01): two or three clients on one upload session, with an algorithm change between creation and
+// completion, the second chunk racing the completion.
+func planSharedSession(prop string, seed uint64, tier string, idx int) *Plan {
+	cg := concSetup(seed, tier)
+	g := cg.gen
+	g.p.Profile = "one upload session used by several clients"
+	cg.concKnobs(false)
+	g.storeKnob("mem", "dir", "mem")
+	a, b := g.newBlob(g.r.between(1, 120)), g.newBlob(g.r.between(1, 120))
+	algos := []string{"", "sha256", "sha512", "sha384"}
+	var clients [][]Op
+	for s := 1; s <= g.r.between(1, 2); s++ {
+		repo := g.r.intn(g.nrepos())
+		create, finish := algos[g.r.intn(len(algos))], algos[g.r.intn(len(algos))]
+		first := []Op{{K: "sx", Act: "post", Repo: repo, Sess: s, Algo: create}, {K: "sx", Act: "patch", Repo: repo, Sess: s, Obj: a}}
+		if g.r.chance(30) {
+			first = append(first, Op{K: "sleep", Ms: 0})
+		}
+		first = append(first, Op{K: "sx", Act: "put", Repo: repo, Sess: s, Obj: a, From: b, Algo2: finish, S: g.r.str("", "", "both")},
+			Op{K: "sx", Act: "getall", Repo: repo, Obj: a, From: b})
+		second := []Op{{K: "sx", Act: "wait", Repo: repo, Sess: s, A: g.r.pick(0, 1, 1, 1)}, {K: "sx", Act: "patch", Repo: repo, Sess: s, Obj: b}}
+		if g.r.chance(40) {
+			second = append(second, Op{K: "sx", Act: "put", Repo: repo, Sess: s, Obj: a, From: b, Algo2: algos[g.r.intn(len(algos))], S: g.r.str("both", "")})
+		}
+		second = append(second, Op{K: "sx", Act: "getall", Repo: repo, Obj: a, From: b})
+		clients = append(clients, first, second)
+		if g.r.chance(30) {
+			clients = append(clients, []Op{{K: "sx", Act: "wait", Repo: repo, Sess: s, A: 1}, {K: "sx", Act: "patch", Repo: repo, Sess: s, Obj: a}, {K: "sx", Act: "getall", Repo: repo, Obj: a, From: b}})
+		}
+	}
+	return cg.finishConc(prop, clients)
 }
 
 func planC13(prop string, seed uint64, tier string, idx int) *Plan {
